@@ -73,6 +73,12 @@ Theorem C10_app_judgement_transfer : forall sc t, JudgeC10P.profile_C10b sc = tr
 Proof. exact JudgeC10P.C10_app_judgement_transfer. Qed.
 
 
+(* ---- source tie, second wave (DESIGN 11.7): definitions regenerated from the Rust source coincide with the model ---- *)
+From BEI Require Generated.DataSrc Generated.CondSrc Generated.ModifSrc Proofs.SrcTie2P.
+Theorem C10_source_data_update : forall d dt s v, SrcTie2P.deq (DataSrc.ActionData_update_src d dt s v) (State.data_update dt d s v).
+Proof. exact SrcTie2P.ActionData_update_tie. Qed.
+
+
 Print Assumptions C10_recurrences.
 Print Assumptions C10_closed_form.
 Print Assumptions C10_bounds.
@@ -96,3 +102,4 @@ Print Assumptions C10_judgement_sound.
 Print Assumptions C10_judgement_transfer.
 Print Assumptions C10_app_judgement_sound.
 Print Assumptions C10_app_judgement_transfer.
+Print Assumptions C10_source_data_update.
